@@ -54,11 +54,14 @@ Proof.
   { intros m Hm. rewrite (U1 m (NotVar m Hm)). unfold st0. rewrite fget_enter; [apply Fm, Hm|reflexivity]. }
   assert (Mi1 : mems_init r nf 0 st1) by (eapply mems_init_of; [exact M1|exact Mi]).
   pose proof (row_exec brs ev (b_idiom bk) r nf 0 n st1 Hb D1 Mi1 Sep1 Nd) as RE.
-  destruct (drow ev r) as [vs|f|k]; [| rewrite RE; reflexivity | exact I].
+  unfold drow.
+  destruct (drow1 ev r) as [ps|f|k]; cbn [rbind]; [| rewrite RE; reflexivity | exact I].
   destruct RE as (st2 & E2 & R2 & U2 & Mo2 & Dn2). rewrite E2. cbn [rbind]. rewrite exec_stmts_app.
   assert (Sep2 : forall m, In m (rmems r nf 0) -> fget m st2 = None).
   { intros m Hm. rewrite (U2 m (NotVar m Hm)). apply Sep1, Hm. }
-  destruct (sets_exec brs ev r nf 0 n st2 vs Dn2 Sep2 Nd) as (st3 & E3 & F3 & R3 & Mo3 & Fi3).
+  pose proof (sets_exec brs ev r nf 0 n st2 ps Dn2 Sep2 Nd) as SE.
+  destruct (drow2 ev r ps) as [vs|f|k]; [| rewrite SE; reflexivity | exact I].
+  destruct SE as (st3 & E3 & F3 & R3 & Mo3 & Fi3).
   rewrite E3. cbn [rbind]. rewrite exec_stmts_cons. cbn [exec_stmt rbind].
   replace (fill_row brs st3) with vs by (symmetry; apply (fill_row_filled r nf 0 st3 vs Fi3)).
   set (st4 := {| frames := frames st3; members := members st3; rows := rows st3 ++ [vs] |}).
@@ -477,10 +480,12 @@ Proof.
     destruct (decls_declared ev c n0 st0 Hc) as (st1 & E1 & D1 & M1 & R1 & U1); [intros x _; reflexivity|].
     rewrite E1. cbn [rbind]. rewrite exec_stmts_app.
     pose proof (te_exec brs ev (b_idiom bk) c n0 st1 Hc D1) as T.
-    pose proof (de_phases ev c) as Hph.
-    destruct (de ev c) as [v|f|k] eqn:Ed; cbn [rbind]; [| |exact I].
-    + destruct Hph as [Hs _]. rewrite Hs in T. destruct T as (st2 & E2 & M2 & R2 & U2 & B2 & V2).
-      rewrite E2. cbn [rbind]. rewrite exec_one, exec_if, V2. cbn [rbind].
+    unfold dex.
+    destruct (dstm ev c) as [[]|f|k]; cbn [rbind]; [|rewrite T; reflexivity|exact I].
+    destruct T as (st2 & E2 & M2 & R2 & U2 & B2 & V2).
+    rewrite E2. cbn [rbind]. rewrite exec_one, exec_if.
+    destruct (de ev c) as [v|f|k] eqn:Ed; cbn [rbind]; [|rewrite (V2 I); reflexivity|exact I].
+    + rewrite (V2 I). cbn [rbind].
       destruct (truth v) as [t|f|k]; cbn [rbind]; [|reflexivity|exact I].
       destruct t.
       * assert (Mi2 : binit b n1 (members st2)) by (rewrite M2, M1; exact Mi).
@@ -493,7 +498,6 @@ Proof.
         destruct BE as (st3 & E3 & R3 & Mi3). rewrite E3. cbn [rbind pop_frame rows members].
         exists (members st3). split; [|exact Mi3]. rewrite R3, R2, R1. reflexivity.
       * cbn [rbind pop_frame rows members]. exists ms. split; [|exact Mi]. rewrite R2, R1, M2, M1. reflexivity.
-    + rewrite Hph in T. rewrite T. reflexivity.
   - set (st := {| frames := []; members := ms; rows := [] |}).
     pose proof (body_exec bk b n0 ev st Hb Nd Mi (fun x _ => eq_refl) (fun m _ => eq_refl)) as BE.
     destruct (dbody ev b) as [rws|f|k]; [|rewrite BE; reflexivity|exact I].
